@@ -19,14 +19,14 @@ From TG.Model Require SymbolMap.
 Import ListNotations.
 Open Scope N_scope.
 
-Module SM := SymbolMap.
 
-Definition cv (r : rng) : SM.file_range := SM.mkFR (r_file r) (r_lo r) (r_hi r).
 
-Definition lk_kind (k : leafkind) : SM.sym_kind :=
+Definition cv (r : rng) : SymbolMap.file_range := SymbolMap.mkFR (r_file r) (r_lo r) (r_hi r).
+
+Definition lk_kind (k : leafkind) : SymbolMap.sym_kind :=
   match k with
-  | LTArg => SM.KTemplateArg | LField => SM.KRecordField | LVar => SM.KVariable
-  | LDefset => SM.KDefset | LDefm => SM.KDefm
+  | LTArg => SymbolMap.KTemplateArg | LField => SymbolMap.KRecordField | LVar => SymbolMap.KVariable
+  | LDefset => SymbolMap.KDefset | LDefm => SymbolMap.KDefm
   end.
 Definition leafkind_eqb (a b : leafkind) : bool :=
   match a, b with
@@ -42,64 +42,92 @@ Fixpoint count_kind (k : leafkind) (l : list leaf) : N :=
   end.
 
 (** the arena id of leaf [i] *)
-Definition leaf_sid (ls : list leaf) (i : N) : option SM.symbol_id :=
+Definition leaf_sid (ls : list leaf) (i : N) : option SymbolMap.symbol_id :=
   match nthN ls i with
   | Some l => Some (lk_kind (lf_kind l), count_kind (lf_kind l) (firstn (N.to_nat i) ls))
   | None => None
   end.
-Definition sid_of (s : st) (id : symid) : SM.symbol_id :=
+Definition sid_of (s : st) (id : symid) : SymbolMap.symbol_id :=
   match id with
-  | SyRecord i => (SM.KRecord, i)
-  | SyMc i => (SM.KMulticlass, i)
-  | SyLeaf i => match leaf_sid (s_leaves s) i with Some x => x | None => (SM.KVariable, i) end
+  | SyRecord i => (SymbolMap.KRecord, i)
+  | SyMc i => (SymbolMap.KMulticlass, i)
+  | SyLeaf i => match leaf_sid (s_leaves s) i with Some x => x | None => (SymbolMap.KVariable, i) end
   end.
 
-Definition refs_of (s : st) (id : symid) : list SM.file_range := map cv (reference_locs s id).
+Definition refs_of (s : st) (id : symid) : list SymbolMap.file_range := map cv (reference_locs s id).
 Definition map_leaf_ids (s : st) (m : list (name * N)) : list (name * N) :=
   map (fun e => (fst e, snd (sid_of s (SyLeaf (snd e))))) m.
 
-Definition rec_entry (s : st) (i : N) (r : recd) : SM.entry :=
-  SM.mkEntry (rc_name r) (cv (rc_loc r)) (refs_of s (SyRecord i))
-    (SM.PRecord (if rc_class r then SM.RKClass else SM.RKDef)
+Definition rec_entry (s : st) (i : N) (r : recd) : SymbolMap.entry :=
+  SymbolMap.mkEntry (rc_name r) (cv (rc_loc r)) (refs_of s (SyRecord i))
+    (SymbolMap.PRecord (if rc_class r then SymbolMap.RKClass else SymbolMap.RKDef)
                 (map_leaf_ids s (rc_targs r)) (map_leaf_ids s (rc_fields r)) (rc_parents r)).
-Definition mc_entry (s : st) (i : N) (m : mcd) : SM.entry :=
-  SM.mkEntry (mc_name m) (cv (mc_loc m)) (refs_of s (SyMc i))
-    (SM.PMulticlass (map_leaf_ids s (mc_targs m)) (mc_parents m)).
-Definition leaf_payload (k : leafkind) : SM.payload :=
+Definition mc_entry (s : st) (i : N) (m : mcd) : SymbolMap.entry :=
+  SymbolMap.mkEntry (mc_name m) (cv (mc_loc m)) (refs_of s (SyMc i))
+    (SymbolMap.PMulticlass (map_leaf_ids s (mc_targs m)) (mc_parents m)).
+Definition leaf_payload (k : leafkind) : SymbolMap.payload :=
   match k with
-  | LTArg => SM.PTemplateArg []
-  | LField => SM.PRecordField [] 0
-  | LVar => SM.PVariable []
-  | LDefset => SM.PDefset [] []
-  | LDefm => SM.PDefm []
+  | LTArg => SymbolMap.PTemplateArg []
+  | LField => SymbolMap.PRecordField [] 0
+  | LVar => SymbolMap.PVariable []
+  | LDefset => SymbolMap.PDefset [] []
+  | LDefm => SymbolMap.PDefm []
   end.
-Definition leaf_entry (s : st) (i : N) (l : leaf) : SM.entry :=
-  SM.mkEntry (lf_name l) (cv (lf_loc l)) (refs_of s (SyLeaf i)) (leaf_payload (lf_kind l)).
+Definition leaf_entry (s : st) (i : N) (l : leaf) : SymbolMap.entry :=
+  SymbolMap.mkEntry (lf_name l) (cv (lf_loc l)) (refs_of s (SyLeaf i)) (leaf_payload (lf_kind l)).
 
 (** a list with the positions of its elements *)
 Fixpoint indexed_from {A} (i : N) (l : list A) : list (N * A) :=
   match l with [] => [] | x :: r => (i, x) :: indexed_from (i + 1) r end.
 Definition indexed {A} (l : list A) : list (N * A) := indexed_from 0 l.
 
-Definition arena_recs (s : st) : list SM.entry := map (fun p => rec_entry s (fst p) (snd p)) (indexed (s_recs s)).
-Definition arena_mcs (s : st) : list SM.entry := map (fun p => mc_entry s (fst p) (snd p)) (indexed (s_mcs s)).
-Definition arena_leaves (s : st) (k : leafkind) : list SM.entry :=
+Definition arena_recs (s : st) : list SymbolMap.entry := map (fun p => rec_entry s (fst p) (snd p)) (indexed (s_recs s)).
+Definition arena_mcs (s : st) : list SymbolMap.entry := map (fun p => mc_entry s (fst p) (snd p)) (indexed (s_mcs s)).
+Definition arena_leaves (s : st) (k : leafkind) : list SymbolMap.entry :=
   map (fun p => leaf_entry s (fst p) (snd p))
       (filter (fun p => leafkind_eqb (lf_kind (snd p)) k) (indexed (s_leaves s))).
 
 (** `add_to_pos_to_symbol_map` on the bare table *)
-Definition pos_ins (P : list (SM.fileid * list SM.ivl)) (loc : SM.file_range) (sid : SM.symbol_id)
-  : list (SM.fileid * list SM.ivl) :=
-  if SM.fr_is_empty loc then P
-  else SM.fmap_set P (SM.fr_file loc)
-         (SM.ivl_insert (match SM.fmap_get P (SM.fr_file loc) with Some m => m | None => [] end)
-                        (SM.fr_lo loc) (SM.fr_hi loc) sid).
+Definition pos_ins (P : list (SymbolMap.fileid * list SymbolMap.ivl)) (loc : SymbolMap.file_range) (sid : SymbolMap.symbol_id)
+  : list (SymbolMap.fileid * list SymbolMap.ivl) :=
+  if SymbolMap.fr_is_empty loc then P
+  else SymbolMap.fmap_set P (SymbolMap.fr_file loc)
+         (SymbolMap.ivl_insert (match SymbolMap.fmap_get P (SymbolMap.fr_file loc) with Some m => m | None => [] end)
+                        (SymbolMap.fr_lo loc) (SymbolMap.fr_hi loc) sid).
 (** the position log, replayed oldest first *)
-Definition abs_pos (s : st) : list (SM.fileid * list SM.ivl) :=
+Definition abs_pos (s : st) : list (SymbolMap.fileid * list SymbolMap.ivl) :=
   fold_right (fun e P => pos_ins P (cv (fst e)) (sid_of s (snd e))) [] (s_pos s).
 
-Definition abs (s : st) : SM.symbol_map :=
-  SM.mkSM (arena_recs s) (arena_leaves s LTArg) (arena_leaves s LField) (arena_leaves s LVar)
+Definition abs (s : st) : SymbolMap.symbol_map :=
+  SymbolMap.mkSM (arena_recs s) (arena_leaves s LTArg) (arena_leaves s LField) (arena_leaves s LVar)
           (arena_leaves s LDefset) (arena_mcs s) (arena_leaves s LDefm)
           [] [] [] [] [] (abs_pos s) None (map (fun d => cv (fst d)) (rev (s_diags s))).
 
+
+(** ---- helpers for the extracted comparison driver (ixbridge_driver.ml): arenas by a numeric kind code, so that the
+    driver needs no constructor of the two kind types (their names clash after extraction) *)
+Definition kinds_coded : list (N * SymbolMap.sym_kind) :=
+  [(0, SymbolMap.KRecord); (1, SymbolMap.KTemplateArg); (2, SymbolMap.KRecordField); (3, SymbolMap.KVariable); (4, SymbolMap.KDefset);
+   (5, SymbolMap.KMulticlass); (6, SymbolMap.KDefm)].
+Definition kind_code (k : SymbolMap.sym_kind) : N :=
+  match k with
+  | SymbolMap.KRecord => 0 | SymbolMap.KTemplateArg => 1 | SymbolMap.KRecordField => 2 | SymbolMap.KVariable => 3 | SymbolMap.KDefset => 4
+  | SymbolMap.KMulticlass => 5 | SymbolMap.KDefm => 6
+  end.
+Definition entry_is_class (e : SymbolMap.entry) : bool :=
+  match SymbolMap.p_record_kind (SymbolMap.e_payload e) with Some SymbolMap.RKClass => true | _ => false end.
+
+(** ---- the single-visit condition on the position log (newest first): the hypothesis of C06_coherent_core_partial.
+    An entry whose range is the definition range of its symbol must be the first entry with that range; any other
+    (reference) entry may only be preceded, at the same range, by definitions at that very range (the `let` pair). *)
+Definition is_def (s : st) (e : rng * symid) : bool :=
+  match define_loc s (snd e) with Some d => rng_eqb d (fst e) | None => false end.
+Fixpoint log_okb (s : st) (lg : list (rng * symid)) : bool :=
+  match lg with
+  | [] => true
+  | e :: older =>
+      (if is_def s e then forallb (fun e' => negb (rng_eqb (fst e') (fst e))) older
+       else forallb (fun e' => implb (rng_eqb (fst e') (fst e)) (is_def s e')) older)
+      && log_okb s older
+  end.
+Definition log_fresh (s : st) : bool := log_okb s (s_pos s).
